@@ -53,10 +53,23 @@ Fixpoint zget (z : list (Z * Z * Z)) (y x : Z) : option Z :=
 Definition counts (tb : tabs) (c : cell) : bool :=
   negb (str_eqb (ch c) [32]) || ahs tb (sattr tb (st c)).
 
-(* get_max_column_index: max(index of explicit cells that count, default=0);
-   column indices are >= 0 *)
+(* get_max_column_index: max(numbers, default=0) over the indices >= 0 of the
+   explicit cells that count (cells at negative column indices - a float with
+   left < 0 - are not visible and do not count: fix aa7dc6e). *)
+Definition gcounts (tb : tabs) (e : Z * cell) : bool := (0 <=? fst e) && counts tb (snd e).
+Definition gmax_opt (tb : tabs) (r : row) : option Z :=
+  fold_left (fun m e => if gcounts tb e
+                        then Some (match m with Some v => Z.max v (fst e) | None => fst e end)
+                        else m) r None.
 Definition gmax (tb : tabs) (r : row) : Z :=
-  fold_left (fun m e => if counts tb (snd e) then Z.max m (fst e) else m) r 0.
+  match gmax_opt tb r with Some v => v | None => 0 end.
+
+(* the function as it stood before aa7dc6e (negative indices counted): kept only
+   for the _pinned_refuted theorem; nothing in the model uses it *)
+Definition gmax_pinned (tb : tabs) (r : row) : Z :=
+  match fold_left (fun m e => if counts tb (snd e)
+                              then Some (match m with Some v => Z.max v (fst e) | None => fst e end)
+                              else m) r None with Some v => v | None => 0 end.
 
 Definition differs (a b : cell) : bool :=
   negb (str_eqb (ch a) (ch b)) || negb (st a =? st b).
